@@ -1,1 +1,1022 @@
-pub fn run(_run: &mut vf_core::Run) {}
+//! C10 — Merkle openings verify for committed leaves and only for them.
+//!
+//! Oracle: `vf_ref::merkle::NaiveTree` (all levels materialised, paths read off the levels) over the
+//! same two-to-one hash, used as a black box (the hash itself is C11's subject).
+//! Positive direction: prove/verify, prove_batch/verify_batch/get_root, into_paths = naive paths,
+//! from_paths(into_paths(p)) = p and verifies. Negative direction: for every mutated opening the
+//! result must be an error unless every claimed (position, leaf) is a committed pair; never a panic.
+
+use std::any::{Any, TypeId};
+use std::collections::{BTreeSet, HashMap};
+use std::sync::{Arc, OnceLock, RwLock};
+
+use proptest::prelude::*;
+use serde::{Deserialize, Serialize};
+use vf_core::{catch, ensure, CheckResult, Fail, Obs, Run, SubCheck, Tier};
+use vf_ref::merkle::{root_of_path, NaiveTree};
+use vf_repo::prelude::*;
+use winter_crypto::hashers::{Blake3_192, Blake3_256, Rp62_248, Rp64_256, RpJive64_256, Sha3_256};
+use winter_crypto::{BatchMerkleProof, Hasher, MerkleTree};
+
+use crate::ha::{pkey, HA};
+
+pub const HASHERS: [&str; 6] = ["Blake3_256<f128>", "Sha3_256<f64>", "Rp64_256", "Blake3_192<f62>", "RpJive64_256", "Rp62_248"];
+
+macro_rules! with_hasher {
+    ($id:expr, $f:ident ( $($args:expr),* )) => {
+        match $id {
+            0 => $f::<B128, Blake3_256<B128>>($($args),*),
+            1 => $f::<B64, Sha3_256<B64>>($($args),*),
+            2 => $f::<B64, Rp64_256>($($args),*),
+            3 => $f::<B62, Blake3_192<B62>>($($args),*),
+            4 => $f::<B64, RpJive64_256>($($args),*),
+            5 => $f::<B62, Rp62_248>($($args),*),
+            _ => Err(Fail::new("harness/hasher", "unknown hasher id")),
+        }
+    };
+}
+
+// TREES (cached per hasher / depth / leaf kind / seed)
+// ================================================================================================
+
+pub struct Kit<H: Hasher> {
+    pub tree: MerkleTree<H>,
+    pub naive: NaiveTree<H::Digest>,
+    /// digests that occur nowhere in the tree
+    pub foreign: [H::Digest; 2],
+}
+
+type Cache = RwLock<HashMap<(TypeId, u8, bool, u8), Arc<dyn Any + Send + Sync>>>;
+static CACHE: OnceLock<Cache> = OnceLock::new();
+
+fn merge_fn<H: Hasher>(a: &H::Digest, b: &H::Digest) -> H::Digest {
+    H::merge(&[*a, *b])
+}
+
+pub fn kit<B: FA, H: HA<B>>(depth: u8, equal: bool, seed: u8) -> Arc<Kit<H>> {
+    let key = (TypeId::of::<H>(), depth, equal, seed);
+    let cache = CACHE.get_or_init(|| RwLock::new(HashMap::new()));
+    if let Some(k) = cache.read().unwrap().get(&key) {
+        return k.clone().downcast::<Kit<H>>().expect("kit type");
+    }
+    let n = 1usize << depth;
+    let leaves: Vec<H::Digest> = (0..n)
+        .map(|i| if equal { H::hash(&[seed, 0xEE]) } else { H::hash(&[seed, i as u8, (i >> 8) as u8, 0x4c]) })
+        .collect();
+    let naive = NaiveTree::build(&leaves, &merge_fn::<H>);
+    let tree = MerkleTree::<H>::new(leaves).expect("power-of-two leaves");
+    let k = Arc::new(Kit { tree, naive, foreign: [H::hash(&[seed, 0xF0, 0x0F]), H::hash(&[seed, 0xF1, 0x1F, 0x77])] });
+    cache.write().unwrap().insert(key, k.clone());
+    k
+}
+
+// OPENINGS AS PLAIN DATA
+// ================================================================================================
+
+#[derive(Clone, PartialEq, Debug)]
+pub struct Op<D> {
+    pub leaves: Vec<D>,
+    pub nodes: Vec<Vec<D>>,
+    pub depth: u8,
+}
+
+fn to_op<H: Hasher>(p: &BatchMerkleProof<H>) -> Op<H::Digest> {
+    Op { leaves: p.leaves.clone(), nodes: p.nodes.clone(), depth: p.depth }
+}
+fn to_proof<H: Hasher>(o: &Op<H::Digest>) -> BatchMerkleProof<H> {
+    BatchMerkleProof { leaves: o.leaves.clone(), nodes: o.nodes.clone(), depth: o.depth }
+}
+
+fn fail_panic(ctx: &str, p: &vf_core::PanicSig) -> Fail {
+    Fail::new(format!("{ctx}/{}", pkey(p)), format!("{ctx}: panicked: {} at {}:{}", p.msg, p.file, p.line))
+}
+
+// POSITIVE DIRECTION
+// ================================================================================================
+
+pub struct Flags {
+    /// skip the from_paths comparison for unsorted index lists (recorded finding, sampled sub-checks)
+    pub skip_unsorted_repack: bool,
+    pub verify_singles: bool,
+}
+
+fn positive<B: FA, H: HA<B>>(k: &Kit<H>, idx: &[usize], flags: &Flags, obs: &mut Obs) -> CheckResult {
+    let name = H::full_name();
+    let root = *k.tree.root();
+    ensure!(root == *k.naive.root(), "root", "{name}: tree root differs from the naive root");
+    ensure!(k.tree.depth() == k.naive.depth(), "depth", "{name}: depth()");
+    let proof = catch(|| k.tree.prove_batch(idx))
+        .map_err(|p| fail_panic("prove_batch", &p))?
+        .map_err(|e| Fail::new("prove_batch/err", format!("{name}: prove_batch({idx:?}) failed: {e}")))?;
+    let op = to_op(&proof);
+    obs.comparisons += 1;
+    ensure!(op.depth as usize == k.naive.depth(), "prove_batch/depth", "{name}: opening depth {} for a tree of depth {}", op.depth, k.naive.depth());
+    ensure!(op.leaves.len() == idx.len(), "prove_batch/leaves-len", "{name}: {} leaves for {} positions", op.leaves.len(), idx.len());
+    for (j, &i) in idx.iter().enumerate() {
+        ensure!(op.leaves[j] == *k.naive.leaf(i), "prove_batch/leaf", "{name}: leaf {j} of the opening is not the committed leaf at position {i} (positions {idx:?})");
+    }
+    // information only: does the opening carry exactly the minimal cover
+    let cover = k.naive.minimal_cover(idx);
+    let carried: usize = op.nodes.iter().map(|v| v.len()).sum();
+    obs.label(if carried == cover.len() { "nodes=minimal-cover" } else { "nodes=not-minimal" });
+    let r = catch(|| MerkleTree::<H>::verify_batch(&root, idx, &proof)).map_err(|p| fail_panic("verify_batch", &p))?;
+    ensure!(r.is_ok(), "verify_batch/honest-rejected", "{name}: honest batch opening for {idx:?} rejected: {r:?}");
+    let gr = catch(|| proof.get_root(idx)).map_err(|p| fail_panic("get_root", &p))?;
+    ensure!(gr.as_ref().ok() == Some(k.naive.root()), "get_root/value", "{name}: get_root({idx:?}) is not the naive root");
+    // single paths: prove(i) against the naive path for every queried position; their verification
+    // does not depend on the subset and is done once per (tree, position) by exhaustive-paths (and
+    // on three positions per case here when `verify_singles` is set)
+    for (j, &i) in idx.iter().enumerate() {
+        let path = catch(|| k.tree.prove(i))
+            .map_err(|p| fail_panic("prove", &p))?
+            .map_err(|e| Fail::new("prove/err", format!("{name}: prove({i}) failed: {e}")))?;
+        obs.comparisons += 1;
+        ensure!(path == k.naive.path(i), "prove/path", "{name}: prove({i}) differs from the naive path");
+        if flags.verify_singles && (j == 0 || j == idx.len() / 2 || j + 1 == idx.len()) {
+            let v = catch(|| MerkleTree::<H>::verify(root, i, &path)).map_err(|p| fail_panic("verify", &p))?;
+            ensure!(v.is_ok(), "verify/honest-rejected", "{name}: honest path for {i} rejected");
+        }
+    }
+    // decompression
+    let paths = catch(|| to_proof::<H>(&op).into_paths(idx))
+        .map_err(|p| fail_panic("into_paths", &p))?
+        .map_err(|e| Fail::new("into_paths/err", format!("{name}: into_paths({idx:?}) failed: {e}")))?;
+    obs.comparisons += 1;
+    ensure!(paths.len() == idx.len(), "into_paths/len", "{name}: into_paths returned {} paths for {} positions", paths.len(), idx.len());
+    for (j, &i) in idx.iter().enumerate() {
+        ensure!(paths[j] == k.naive.path(i), "into_paths/path", "{name}: into_paths({idx:?})[{j}] is not the naive path of position {i}");
+    }
+    // re-compression (last: F11 lives here)
+    let sorted = idx.windows(2).all(|w| w[0] < w[1]);
+    obs.label(if sorted { "order=sorted" } else { "order=unsorted" });
+    if !sorted && flags.skip_unsorted_repack {
+        obs.label("excluded-known:from_paths-unsorted");
+        return Ok(());
+    }
+    let pfx = if sorted { "from_paths" } else { "from_paths-unsorted" };
+    let re = catch(|| BatchMerkleProof::<H>::from_paths(&paths, idx)).map_err(|p| fail_panic(pfx, &p))?;
+    obs.comparisons += 1;
+    if to_op(&re) == op && re.serialize_nodes() == proof.serialize_nodes() {
+        // identical to the honest opening, which verified above
+        return Ok(());
+    }
+    let v = catch(|| MerkleTree::<H>::verify_batch(&root, idx, &re)).map_err(|p| fail_panic(pfx, &p))?;
+    ensure!(
+        v.is_ok(),
+        format!("{pfx}/does-not-verify"),
+        "{name}: from_paths(into_paths(prove_batch(idx)), idx) differs from prove_batch(idx) and does not verify against the root for idx = {:?}: {v:?}",
+        short(idx)
+    );
+    Err(Fail::new(
+        format!("{pfx}/differs-from-prove_batch"),
+        format!("{name}: from_paths(into_paths(p), idx) != prove_batch(idx) for idx = {:?} (it still verifies)", short(idx)),
+    ))
+}
+
+// NEGATIVE DIRECTION: MUTATIONS OF A BATCH OPENING
+// ================================================================================================
+
+pub const BATCH_KINDS: [&str; 25] = [
+    "leaf-foreign",
+    "leaf-substitute",
+    "leaf-swap",
+    "node-foreign",
+    "node-substitute",
+    "pos-flipbit",
+    "pos-out-of-range",
+    "pos-huge",
+    "pos-duplicate",
+    "depth-0",
+    "depth-minus1",
+    "depth-plus1",
+    "depth-63",
+    "depth-64",
+    "depth-255",
+    "drop-node",
+    "add-node",
+    "drop-vec",
+    "add-empty-vec",
+    "add-vec",
+    "drop-leaf",
+    "add-leaf",
+    "no-indexes",
+    "256-indexes",
+    "internal-level-as-leaves",
+];
+
+type Mutant<D> = (Op<D>, Vec<usize>);
+
+fn mutants<D: Clone + PartialEq>(kind: &str, op: &Op<D>, idx: &[usize], n: usize, foreign: &[D; 2], tree_leaves: &[D]) -> Vec<Mutant<D>> {
+    let mut out: Vec<Mutant<D>> = vec![];
+    let k = idx.len();
+    let with_op = |f: &dyn Fn(&mut Op<D>)| {
+        let mut o = op.clone();
+        f(&mut o);
+        (o, idx.to_vec())
+    };
+    match kind {
+        "leaf-foreign" => {
+            for j in 0..k {
+                out.push(with_op(&|o| o.leaves[j] = foreign[0].clone()));
+            }
+        },
+        "leaf-substitute" => {
+            for j in 0..k {
+                out.push(with_op(&|o| o.leaves[j] = tree_leaves[idx[j] ^ 1].clone()));
+                out.push(with_op(&|o| o.leaves[j] = tree_leaves[(idx[j] + n / 2) % n].clone()));
+            }
+        },
+        "leaf-swap" => {
+            for j in 0..k.saturating_sub(1) {
+                out.push(with_op(&|o| o.leaves.swap(j, j + 1)));
+            }
+        },
+        "node-foreign" => {
+            for v in 0..op.nodes.len() {
+                for j in 0..op.nodes[v].len() {
+                    out.push(with_op(&|o| o.nodes[v][j] = foreign[0].clone()));
+                }
+            }
+        },
+        "node-substitute" => {
+            for v in 0..op.nodes.len() {
+                for j in 0..op.nodes[v].len() {
+                    // another value of the same tree: a leaf, or the neighbouring node of the opening
+                    out.push(with_op(&|o| o.nodes[v][j] = tree_leaves[(v + j) % n].clone()));
+                    if op.nodes[v].len() > 1 {
+                        out.push(with_op(&|o| o.nodes[v].swap(j, (j + 1) % op.nodes[v].len())));
+                    }
+                }
+            }
+        },
+        "pos-flipbit" => {
+            let depth = n.trailing_zeros();
+            for j in 0..k {
+                for b in 0..depth {
+                    let p = idx[j] ^ (1 << b);
+                    if !idx.contains(&p) {
+                        let mut i2 = idx.to_vec();
+                        i2[j] = p;
+                        out.push((op.clone(), i2));
+                    }
+                }
+            }
+        },
+        "pos-out-of-range" => {
+            for j in 0..k {
+                for p in [n, idx[j] + n, idx[j] + 2 * n] {
+                    if !idx.contains(&p) {
+                        let mut i2 = idx.to_vec();
+                        i2[j] = p;
+                        out.push((op.clone(), i2));
+                    }
+                }
+            }
+        },
+        "pos-huge" => {
+            for j in [0, k - 1] {
+                for p in [usize::MAX, usize::MAX - 1, 1usize << 63] {
+                    let mut i2 = idx.to_vec();
+                    i2[j] = p;
+                    out.push((op.clone(), i2));
+                }
+            }
+        },
+        "pos-duplicate" => {
+            if k >= 2 {
+                for j in 0..k {
+                    let mut i2 = idx.to_vec();
+                    i2[j] = idx[(j + 1) % k];
+                    out.push((op.clone(), i2));
+                }
+            }
+            // the same position listed twice with the leaf repeated
+            let mut i2 = idx.to_vec();
+            i2.push(idx[0]);
+            let mut o = op.clone();
+            o.leaves.push(op.leaves[0].clone());
+            out.push((o, i2));
+        },
+        "depth-0" => out.push(with_op(&|o| o.depth = 0)),
+        "depth-minus1" => out.push(with_op(&|o| o.depth = o.depth.wrapping_sub(1))),
+        "depth-plus1" => out.push(with_op(&|o| o.depth += 1)),
+        "depth-63" => out.push(with_op(&|o| o.depth = 63)),
+        "depth-64" => {
+            out.push(with_op(&|o| o.depth = 64));
+            out.push(with_op(&|o| o.depth = 65));
+        },
+        "depth-255" => {
+            out.push(with_op(&|o| o.depth = 255));
+            out.push(with_op(&|o| o.depth = 128));
+        },
+        "drop-node" => {
+            for v in 0..op.nodes.len() {
+                for j in 0..op.nodes[v].len() {
+                    out.push(with_op(&|o| {
+                        o.nodes[v].remove(j);
+                    }));
+                }
+            }
+        },
+        "add-node" => {
+            for v in 0..op.nodes.len() {
+                out.push(with_op(&|o| o.nodes[v].push(foreign[1].clone())));
+                out.push(with_op(&|o| o.nodes[v].insert(0, foreign[1].clone())));
+            }
+        },
+        "drop-vec" => {
+            for v in 0..op.nodes.len() {
+                out.push(with_op(&|o| {
+                    o.nodes.remove(v);
+                }));
+            }
+        },
+        "add-empty-vec" => {
+            out.push(with_op(&|o| o.nodes.push(vec![])));
+            out.push(with_op(&|o| o.nodes.insert(0, vec![])));
+        },
+        "add-vec" => {
+            out.push(with_op(&|o| o.nodes.push(vec![foreign[1].clone()])));
+            out.push(with_op(&|o| {
+                let first = o.nodes[0].clone();
+                o.nodes.insert(0, first)
+            }));
+        },
+        "drop-leaf" => {
+            for j in 0..k {
+                out.push(with_op(&|o| {
+                    o.leaves.remove(j);
+                }));
+            }
+        },
+        "add-leaf" => {
+            out.push(with_op(&|o| o.leaves.push(foreign[1].clone())));
+            out.push(with_op(&|o| o.leaves.insert(0, foreign[1].clone())));
+        },
+        "no-indexes" => out.push((op.clone(), vec![])),
+        "256-indexes" => {
+            let i2: Vec<usize> = (0..256).collect();
+            let mut o = op.clone();
+            o.leaves = (0..256).map(|i| tree_leaves[i % n].clone()).collect();
+            out.push((o, i2));
+        },
+        _ => {},
+    }
+    out
+}
+
+/// result of verification of a mutated opening against the naive model
+fn judge<B: FA, H: HA<B>>(k: &Kit<H>, kind: &str, honest: &Op<H::Digest>, hidx: &[usize], m: &Mutant<H::Digest>, obs: &mut Obs) -> CheckResult {
+    let name = H::full_name();
+    let (op, idx) = m;
+    let root = *k.tree.root();
+    let proof = to_proof::<H>(op);
+    let r = catch(|| MerkleTree::<H>::verify_batch(&root, idx, &proof))
+        .map_err(|p| Fail::new(format!("{kind}/verify_batch/{}", pkey(&p)), format!("{name}: verify_batch panicked on a mutated opening ({kind}; depth {} positions {:?}): {}", op.depth, short(idx), p.msg)))?;
+    obs.comparisons += 1;
+    let unchanged = op == honest && idx == hidx;
+    if unchanged {
+        obs.label("mutation-changed-nothing");
+        ensure!(r.is_ok(), format!("{kind}/honest-rejected"), "{name}: identical opening rejected");
+    }
+    if r.is_ok() {
+        // acceptance is legitimate only if every claimed (position, leaf) is a committed pair and the
+        // position list is one the interface accepts (non-empty, distinct, in range, at most 255)
+        let distinct = idx.iter().collect::<BTreeSet<_>>().len() == idx.len();
+        let claims_true = !idx.is_empty()
+            && idx.len() <= 255
+            && distinct
+            && idx.iter().enumerate().all(|(j, &p)| op.leaves.get(j).is_some_and(|l| k.naive.committed(p, l)));
+        ensure!(
+            claims_true,
+            format!("{kind}/accepted"),
+            "{name}: verify_batch accepted a mutated opening ({kind}) although a claimed (position, leaf) is not committed: positions {:?}, depth {}, honest positions {:?}",
+            short(idx),
+            op.depth,
+            short(hidx)
+        );
+        if !unchanged {
+            obs.label(format!("accepted-claims-still-true:{kind}"));
+        }
+    } else {
+        obs.label("rejected");
+    }
+    // decompression of a mutated opening may fail but must not panic; if it succeeds every returned
+    // path that resolves to the root must start with a committed leaf
+    let p2 = catch(|| to_proof::<H>(op).into_paths(idx))
+        .map_err(|p| Fail::new(format!("{kind}/into_paths/{}", pkey(&p)), format!("{name}: into_paths panicked on a mutated opening ({kind}; depth {} positions {:?}): {}", op.depth, short(idx), p.msg)))?;
+    if let Ok(paths) = p2 {
+        for (j, path) in paths.iter().enumerate() {
+            if j != 0 && j + 1 != paths.len() {
+                continue;
+            }
+            if j < idx.len() && root_of_path(idx[j], path, &merge_fn::<H>).as_ref() == Some(&root) {
+                ensure!(
+                    k.naive.committed(idx[j], &path[0]),
+                    format!("{kind}/into_paths-forged"),
+                    "{name}: into_paths of a mutated opening returned a path that resolves to the root for an uncommitted leaf"
+                );
+            }
+        }
+    }
+    Ok(())
+}
+
+fn short(v: &[usize]) -> Vec<usize> {
+    v.iter().take(12).cloned().collect()
+}
+
+fn negative<B: FA, H: HA<B>>(k: &Kit<H>, idx: &[usize], kind: &str, obs: &mut Obs) -> CheckResult {
+    let name = H::full_name();
+    let proof = k.tree.prove_batch(idx).map_err(|e| Fail::new("prove_batch/err", format!("{name}: {e}")))?;
+    let op = to_op(&proof);
+    let n = k.naive.num_leaves();
+    let mut ms = mutants(kind, &op, idx, n, &k.foreign, &k.naive.levels[0]);
+    if kind == "internal-level-as-leaves" && k.naive.depth() >= 2 {
+        // an honest opening of the tree whose leaves are the level-1 nodes: same root, depth - 1,
+        // claims (position >> 1, internal node) - none of which is a committed (position, leaf) pair
+        let sub = MerkleTree::<H>::new(k.naive.levels[1].clone()).map_err(|e| Fail::new("harness/subtree", format!("{e}")))?;
+        let mut q: Vec<usize> = vec![];
+        for i in idx {
+            if !q.contains(&(i >> 1)) {
+                q.push(i >> 1);
+            }
+        }
+        let p = sub.prove_batch(&q).map_err(|e| Fail::new("harness/subtree", format!("{e}")))?;
+        ms.push((to_op(&p), q));
+    }
+    if ms.is_empty() {
+        obs.label("no-mutant-of-this-kind");
+        return Ok(());
+    }
+    obs.label(format!("kind={kind}"));
+    obs.nontrivial();
+    for m in &ms {
+        judge::<B, H>(k, kind, &op, idx, m, obs)?;
+    }
+    Ok(())
+}
+
+// NEGATIVE DIRECTION: SINGLE PATHS AND PROVER-SIDE VALIDATION
+// ================================================================================================
+
+pub const PATH_KINDS: [&str; 14] = [
+    "path-leaf-foreign",
+    "path-leaf-substitute",
+    "path-node-foreign",
+    "path-node-swap",
+    "path-index-flipbit",
+    "path-index-out-of-range",
+    "path-index-huge",
+    "path-empty",
+    "path-len1",
+    "path-drop-node",
+    "path-add-node",
+    "path-len66",
+    "path-internal-node-as-leaf",
+    "prover-validation",
+];
+
+fn single<B: FA, H: HA<B>>(k: &Kit<H>, pos: usize, kind: &str, obs: &mut Obs) -> CheckResult {
+    let name = H::full_name();
+    let root = *k.tree.root();
+    let n = k.naive.num_leaves();
+    let depth = k.naive.depth();
+    let path = k.naive.path(pos);
+    obs.label(format!("kind={kind}"));
+    obs.nontrivial();
+    let mut ms: Vec<(usize, Vec<H::Digest>)> = vec![];
+    match kind {
+        "path-leaf-foreign" => {
+            let mut p = path.clone();
+            p[0] = k.foreign[0];
+            ms.push((pos, p));
+        },
+        "path-leaf-substitute" => {
+            for q in [pos ^ 1, (pos + n / 2) % n] {
+                let mut p = path.clone();
+                p[0] = *k.naive.leaf(q);
+                ms.push((pos, p));
+            }
+        },
+        "path-node-foreign" => {
+            for j in 1..path.len() {
+                let mut p = path.clone();
+                p[j] = k.foreign[0];
+                ms.push((pos, p));
+            }
+        },
+        "path-node-swap" => {
+            for j in 0..path.len() - 1 {
+                let mut p = path.clone();
+                p.swap(j, j + 1);
+                ms.push((pos, p));
+            }
+        },
+        "path-index-flipbit" => {
+            for b in 0..depth {
+                ms.push((pos ^ (1 << b), path.clone()));
+            }
+        },
+        "path-index-out-of-range" => {
+            for q in [pos + n, pos + 2 * n, pos + (n << 7), n] {
+                ms.push((q, path.clone()));
+            }
+        },
+        "path-index-huge" => {
+            for q in [usize::MAX, usize::MAX - 1, (1usize << 63) + pos, usize::MAX - n + 1 + pos] {
+                ms.push((q, path.clone()));
+            }
+        },
+        "path-empty" => ms.push((pos, vec![])),
+        "path-len1" => {
+            ms.push((pos, vec![path[0]]));
+            ms.push((0, vec![root]));
+        },
+        "path-drop-node" => {
+            for j in 1..path.len() {
+                let mut p = path.clone();
+                p.remove(j);
+                if p.len() >= 2 {
+                    ms.push((pos, p.clone()));
+                    ms.push((pos >> 1, p));
+                }
+            }
+        },
+        "path-add-node" => {
+            let mut p = path.clone();
+            p.push(k.foreign[1]);
+            ms.push((pos, p));
+            let mut p = path.clone();
+            p.insert(1, k.foreign[1]);
+            ms.push((pos, p));
+        },
+        "path-len66" => {
+            for len in [65usize, 66, 130] {
+                let mut p = path.clone();
+                while p.len() < len {
+                    p.push(k.foreign[1]);
+                }
+                ms.push((pos, p));
+            }
+        },
+        "path-internal-node-as-leaf" => {
+            // the honest path of the parent node in the tree over the level-1 nodes
+            if depth >= 2 {
+                let mut p = vec![k.naive.levels[1][pos >> 1]];
+                p.extend_from_slice(&path[2..]);
+                ms.push((pos >> 1, p));
+            }
+        },
+        "prover-validation" => {
+            // documented errors of the proving side: out-of-range / duplicate / empty / too many
+            let r = catch(|| k.tree.prove(n)).map_err(|p| fail_panic("prover-validation/prove", &p))?;
+            ensure!(r.is_err(), "prover-validation/prove-out-of-range", "{name}: prove({n}) on {n} leaves succeeded");
+            let r = catch(|| k.tree.prove(usize::MAX)).map_err(|p| fail_panic("prover-validation/prove", &p))?;
+            ensure!(r.is_err(), "prover-validation/prove-out-of-range", "{name}: prove(usize::MAX) succeeded");
+            for bad in [vec![], vec![n], vec![pos, pos], vec![pos, n + pos], (0..256).collect::<Vec<usize>>()] {
+                let r = catch(|| k.tree.prove_batch(&bad)).map_err(|p| fail_panic("prover-validation/prove_batch", &p))?;
+                ensure!(r.is_err(), "prover-validation/prove_batch-accepts", "{name}: prove_batch({:?}) on {n} leaves succeeded", short(&bad));
+            }
+            return Ok(());
+        },
+        _ => return Err(Fail::new("harness/kind", kind.to_string())),
+    }
+    for (q, p) in &ms {
+        let r = catch(|| MerkleTree::<H>::verify(root, *q, p))
+            .map_err(|e| Fail::new(format!("{kind}/verify/{}", pkey(&e)), format!("{name}: verify panicked ({kind}; index {q}, path of {} nodes, tree depth {depth}): {}", p.len(), e.msg)))?;
+        obs.comparisons += 1;
+        let unchanged = *q == pos && *p == path;
+        if unchanged {
+            obs.label("mutation-changed-nothing");
+        }
+        if r.is_ok() {
+            let committed = !p.is_empty() && k.naive.committed(*q, &p[0]);
+            ensure!(
+                committed,
+                format!("{kind}/accepted"),
+                "{name}: verify accepted index {q} with a path of {} nodes for a tree of {n} leaves although (index, leaf) is not a committed pair ({kind}; honest index {pos})",
+                p.len()
+            );
+            if !unchanged {
+                obs.label(format!("accepted-claims-still-true:{kind}"));
+            }
+        } else {
+            obs.label("rejected");
+        }
+    }
+    Ok(())
+}
+
+// ENUMERATED SPACES
+// ================================================================================================
+
+#[derive(Serialize, Deserialize, Clone, Debug)]
+pub struct ExCase {
+    pub hasher: u8,
+    pub depth: u8,
+    /// bit i set = position i queried
+    pub mask: u32,
+    /// 0 sorted, 1 reversed, 2 rotated by half, 3 odd ranks first
+    pub order: u8,
+    pub equal_leaves: bool,
+    /// mutation kind (negative enumerations only)
+    #[serde(default)]
+    pub kind: String,
+}
+
+fn order_of(sorted: &[usize], order: u8) -> Vec<usize> {
+    match order {
+        0 => sorted.to_vec(),
+        1 => sorted.iter().rev().cloned().collect(),
+        2 => {
+            let mut v = sorted.to_vec();
+            let h = v.len() / 2;
+            v.rotate_left(h);
+            v
+        },
+        _ => {
+            let mut v: Vec<usize> = sorted.iter().skip(1).step_by(2).cloned().collect();
+            v.extend(sorted.iter().step_by(2).cloned());
+            v
+        },
+    }
+}
+
+fn positions_of(c: &ExCase) -> Vec<usize> {
+    let sorted: Vec<usize> = (0..(1usize << c.depth)).filter(|i| (c.mask >> i) & 1 == 1).collect();
+    order_of(&sorted, c.order)
+}
+
+/// is this order variant a new permutation (not equal to one with a smaller order id)
+fn order_is_new(c: &ExCase) -> bool {
+    let sorted: Vec<usize> = (0..(1usize << c.depth)).filter(|i| (c.mask >> i) & 1 == 1).collect();
+    let me = order_of(&sorted, c.order);
+    (0..c.order).all(|o| order_of(&sorted, o) != me)
+}
+
+fn adjacency_label(idx: &[usize]) -> &'static str {
+    let s: BTreeSet<usize> = idx.iter().cloned().collect();
+    let pairs = s.iter().filter(|i| *i % 2 == 0 && s.contains(&(*i + 1))).count();
+    if pairs == 0 {
+        "siblings=none"
+    } else if pairs * 2 == s.len() {
+        "siblings=all"
+    } else {
+        "siblings=some"
+    }
+}
+
+fn ex_positive<B: FA, H: HA<B>>(c: &ExCase, obs: &mut Obs) -> CheckResult {
+    let k = kit::<B, H>(c.depth, c.equal_leaves, 0);
+    let idx = positions_of(c);
+    obs.label(format!("depth={}", c.depth));
+    obs.label(adjacency_label(&idx));
+    obs.nontrivial();
+    positive::<B, H>(&k, &idx, &Flags { skip_unsorted_repack: false, verify_singles: false }, obs)
+}
+
+fn ex_negative<B: FA, H: HA<B>>(c: &ExCase, obs: &mut Obs) -> CheckResult {
+    let k = kit::<B, H>(c.depth, c.equal_leaves, 0);
+    let idx = positions_of(c);
+    negative::<B, H>(&k, &idx, &c.kind, obs)
+}
+
+#[derive(Serialize, Deserialize, Clone, Debug)]
+pub struct PathCase {
+    pub hasher: u8,
+    pub depth: u8,
+    pub pos: u32,
+    pub equal_leaves: bool,
+    pub kind: String,
+}
+
+fn ex_single<B: FA, H: HA<B>>(c: &PathCase, obs: &mut Obs) -> CheckResult {
+    let k = kit::<B, H>(c.depth, c.equal_leaves, 0);
+    obs.label(format!("depth={}", c.depth));
+    single::<B, H>(&k, c.pos as usize, &c.kind, obs)
+}
+
+// SAMPLED TREES (depth 5..12)
+// ================================================================================================
+
+#[derive(Serialize, Deserialize, Clone, Debug)]
+pub struct SampleCase {
+    pub hasher: u8,
+    pub depth: u8,
+    pub equal_leaves: bool,
+    pub seed: u8,
+    pub shape: String,
+    pub idx: Vec<u32>,
+    /// mutation kind selector (negative sub-check)
+    pub kind: u16,
+}
+
+fn subset_strategy(depth: u8) -> BoxedStrategy<(String, Vec<u32>)> {
+    let n = 1u32 << depth;
+    let maxk = n.min(255);
+    prop_oneof![
+        // adjacent run
+        2 => (1u32..=maxk, any::<u32>()).prop_map(move |(len, s)| {
+            let start = s % (n - len + 1);
+            ("adjacent-run".to_string(), (start..start + len).collect::<Vec<u32>>())
+        }),
+        // sibling pairs
+        2 => (1u32..=(maxk / 2).max(1), any::<u64>()).prop_map(move |(pairs, s)| {
+            let half = n / 2;
+            let step = (half / pairs).max(1);
+            let off = (s % step as u64) as u32;
+            let mut v = vec![];
+            for i in 0..pairs {
+                let q = (off + i * step) % half;
+                v.push(2 * q);
+                v.push(2 * q + 1);
+            }
+            v.sort();
+            v.dedup();
+            ("sibling-pairs".to_string(), v)
+        }),
+        // all-left: even positions only
+        2 => (1u32..=maxk.min(n / 2), any::<u32>()).prop_map(move |(cnt, s)| {
+            let half = n / 2;
+            let start = s % (half - cnt + 1);
+            ("all-left".to_string(), (start..start + cnt).map(|q| 2 * q).collect::<Vec<u32>>())
+        }),
+        // one per subtree
+        2 => (0u32..=7, prop::collection::vec(any::<u32>(), 128)).prop_map(move |(lg, r)| {
+            let parts = (1u32 << lg).min(n).min(128);
+            let size = n / parts;
+            ("one-per-subtree".to_string(), (0..parts).map(|i| i * size + r[i as usize] % size).collect::<Vec<u32>>())
+        }),
+        // uniform subset
+        3 => (1usize..=maxk as usize).prop_flat_map(move |k| prop::collection::vec(any::<u32>(), k)).prop_map(move |r| {
+            // partial Fisher-Yates driven by the generated words: distinct positions, any size <= n
+            let mut pool: Vec<u32> = (0..n).collect();
+            let mut v = vec![];
+            for w in r {
+                let i = (w as usize) % pool.len();
+                v.push(pool.swap_remove(i));
+            }
+            v.sort();
+            ("uniform".to_string(), v)
+        }),
+        // a single position at the edges
+        1 => prop::sample::select(vec![0u32, 1, n - 1, n - 2, n / 2, n / 2 - 1]).prop_map(|p| ("single".to_string(), vec![p])),
+    ]
+    .boxed()
+}
+
+fn sample_strategy(hashers: Vec<u8>) -> BoxedStrategy<SampleCase> {
+    (prop::sample::select(hashers), 5u8..=12, prop::bool::weighted(0.2), 0u8..2, any::<bool>(), any::<u16>())
+        .prop_flat_map(|(hasher, depth, equal_leaves, seed, shuffle, kind)| {
+            subset_strategy(depth).prop_flat_map(move |(shape, idx)| {
+                let st = if shuffle && idx.len() > 1 { Just(idx).prop_shuffle().boxed() } else { Just(idx).boxed() };
+                let shape = shape.clone();
+                st.prop_map(move |idx| SampleCase { hasher, depth, equal_leaves, seed, shape: shape.clone(), idx, kind })
+            })
+        })
+        .boxed()
+}
+
+fn sample_positive<B: FA, H: HA<B>>(c: &SampleCase, flags: &Flags, obs: &mut Obs) -> CheckResult {
+    let k = kit::<B, H>(c.depth, c.equal_leaves, c.seed);
+    let idx: Vec<usize> = c.idx.iter().map(|v| *v as usize).collect();
+    positive::<B, H>(&k, &idx, flags, obs)
+}
+fn sample_negative<B: FA, H: HA<B>>(c: &SampleCase, kind: &str, obs: &mut Obs) -> CheckResult {
+    let k = kit::<B, H>(c.depth, c.equal_leaves, c.seed);
+    let idx: Vec<usize> = c.idx.iter().map(|v| *v as usize).collect();
+    negative::<B, H>(&k, &idx, kind, obs)
+}
+fn sample_single<B: FA, H: HA<B>>(c: &SampleCase, kind: &str, obs: &mut Obs) -> CheckResult {
+    let k = kit::<B, H>(c.depth, c.equal_leaves, c.seed);
+    single::<B, H>(&k, c.idx[0] as usize, kind, obs)
+}
+
+fn sample_valid(c: &SampleCase) -> bool {
+    let n = 1u32 << c.depth.min(20);
+    (5..=12).contains(&c.depth)
+        && !c.idx.is_empty()
+        && c.idx.len() <= 255
+        && c.idx.iter().all(|i| *i < n)
+        && c.idx.iter().collect::<BTreeSet<_>>().len() == c.idx.len()
+}
+
+pub struct SampledPos {
+    skip_unsorted_repack: bool,
+}
+
+impl SubCheck for SampledPos {
+    type Case = SampleCase;
+    fn name(&self) -> String {
+        "sampled-openings".into()
+    }
+    fn cases(&self, tier: Tier) -> u64 {
+        tier.pick(30_000, 600_000)
+    }
+    fn watchdog_secs(&self) -> u64 {
+        30
+    }
+    fn rule(&self) -> String {
+        "trees of depth 5..12 over all six hashers (leaves distinct 4:1 all-equal), position sets of size 1..255 shaped as adjacent run / sibling pairs / all-left / one per subtree / uniform / single edge position, sorted or shuffled: the positive oracle of the exhaustive sub-check; non-trivial = more than one position; distinct by (hasher, depth, leaves, positions in order)".into()
+    }
+    fn required_labels(&self, _t: Tier) -> Vec<String> {
+        let mut v: Vec<String> = ["adjacent-run", "sibling-pairs", "all-left", "one-per-subtree", "uniform", "single"].iter().map(|s| format!("shape={s}")).collect();
+        v.extend((5..=12).map(|d| format!("depth={d}")));
+        v.extend((0..6).map(|h| format!("hasher={}", HASHERS[h])));
+        v
+    }
+    fn strategy(&self, _tier: Tier) -> BoxedStrategy<SampleCase> {
+        sample_strategy(vec![0, 1, 2, 3, 4, 5])
+    }
+    fn check(&self, c: &SampleCase, obs: &mut Obs) -> CheckResult {
+        ensure!(sample_valid(c), "harness/case", "malformed case");
+        obs.label(format!("shape={}", c.shape));
+        obs.label(format!("depth={}", c.depth));
+        obs.label(format!("hasher={}", HASHERS[c.hasher as usize % 6]));
+        obs.label(if c.idx.len() >= 128 { "size>=128" } else if c.idx.len() >= 16 { "size=16..127" } else { "size<16" });
+        obs.nontrivial_if(c.idx.len() > 1);
+        let flags = Flags { skip_unsorted_repack: self.skip_unsorted_repack, verify_singles: true };
+        with_hasher!(c.hasher, sample_positive(c, &flags, obs))
+    }
+}
+
+pub struct SampledNeg {
+    /// kinds whose failure is a recorded finding are not generated
+    kinds: Vec<&'static str>,
+    path_kinds: Vec<&'static str>,
+}
+
+impl SubCheck for SampledNeg {
+    type Case = SampleCase;
+    fn name(&self) -> String {
+        "sampled-mutations".into()
+    }
+    fn cases(&self, tier: Tier) -> u64 {
+        tier.pick(40_000, 800_000)
+    }
+    fn watchdog_secs(&self) -> u64 {
+        60
+    }
+    fn rule(&self) -> String {
+        format!(
+            "same trees and position sets as sampled-openings; one mutation kind per case, applied at every place it applies (batch kinds: {:?}; single-path kinds on the first position: {:?}); result must be Err unless every claimed (position, leaf) is committed, never a panic; non-trivial = at least one mutant evaluated; distinct by case",
+            self.kinds, self.path_kinds
+        )
+    }
+    fn strategy(&self, _tier: Tier) -> BoxedStrategy<SampleCase> {
+        sample_strategy(vec![0, 1, 2, 3, 4, 5])
+    }
+    fn check(&self, c: &SampleCase, obs: &mut Obs) -> CheckResult {
+        ensure!(sample_valid(c), "harness/case", "malformed case");
+        obs.label(format!("hasher={}", HASHERS[c.hasher as usize % 6]));
+        let total = self.kinds.len() + self.path_kinds.len();
+        let sel = vf_core::pick_index(c.kind, total);
+        if sel < self.kinds.len() {
+            let kind = self.kinds[sel];
+            // the quadratic kinds are evaluated on a prefix of large position sets
+            let mut c2 = c.clone();
+            if c2.idx.len() > 24 && matches!(kind, "pos-flipbit" | "node-substitute" | "leaf-substitute" | "drop-node" | "node-foreign" | "pos-out-of-range" | "pos-duplicate" | "drop-leaf" | "leaf-foreign" | "leaf-swap") {
+                c2.idx.truncate(24);
+                obs.label("positions-truncated-to-24");
+            }
+            with_hasher!(c.hasher, sample_negative(&c2, kind, obs))
+        } else {
+            let kind = self.path_kinds[sel - self.kinds.len()];
+            with_hasher!(c.hasher, sample_single(c, kind, obs))
+        }
+    }
+}
+
+// DRIVER
+// ================================================================================================
+
+fn masks(depth: u8) -> impl Iterator<Item = u32> {
+    let n = 1u32 << depth;
+    let top: u64 = 1u64 << n;
+    (1..top).map(|m| m as u32)
+}
+
+pub fn run(run: &mut Run) {
+    run.assume("the two-to-one hash is used as a black box by the naive tree (its correctness is C11); no collisions among generated digests");
+    if let Err(e) = vf_ref::merkle::selfcheck() {
+        run.inconclusive(format!("reference self-check failed (merkle): {e}"));
+        return;
+    }
+    let thorough = run.tier == Tier::Thorough;
+
+    // ---- positive, exhaustive over depth 1..4 -------------------------------------------------
+    let ex_hashers: Vec<u8> = vec![0, 1, 2, 3, 4, 5];
+    let pos_cases = ex_hashers.clone().into_iter().flat_map(move |hasher| {
+        (1u8..=if hasher < 3 || thorough { 4 } else { 3 }).flat_map(move |depth| {
+            masks(depth).flat_map(move |mask| {
+                [false, true].into_iter().flat_map(move |equal_leaves| {
+                    (0u8..4)
+                        .map(move |order| ExCase { hasher, depth, mask, order, equal_leaves, kind: String::new() })
+                        .filter(order_is_new)
+                })
+            })
+        })
+    });
+    run.enumerate(
+        "exhaustive-openings",
+        if thorough {
+            "all six hashers x depth 1..4 x every non-empty position subset x {sorted, reversed, rotated by half, odd ranks first} (distinct permutations only) x {distinct, all-equal} leaves: root = naive root; prove_batch leaves = committed leaves; verify_batch Ok; get_root = naive root; prove(i) = naive path for every i; into_paths = naive paths; from_paths(into_paths) equals prove_batch (structure and serialized nodes) or at least verifies; all cases non-trivial"
+        } else {
+            "Blake3_256, Sha3_256, Rp64_256 x depth 1..4 and Blake3_192, RpJive64_256, Rp62_248 x depth 1..3 (depth 4 in the thorough tier) x every non-empty position subset x {sorted, reversed, rotated by half, odd ranks first} (distinct permutations only) x {distinct, all-equal} leaves: root = naive root; prove_batch leaves = committed leaves; verify_batch Ok; get_root = naive root; prove(i) = naive path for every i; into_paths = naive paths; from_paths(into_paths) equals prove_batch (structure and serialized nodes) or at least verifies; all cases non-trivial"
+        },
+        true,
+        pos_cases,
+        |c: &ExCase, obs: &mut Obs| with_hasher!(c.hasher, ex_positive(c, obs)),
+    );
+
+    // ---- negative, exhaustive over depth 1..3 (all hashers), depth 4 (three hashers) -----------
+    let neg_small = ex_hashers.clone().into_iter().flat_map(|hasher| {
+        (1u8..=3).flat_map(move |depth| {
+            masks(depth).flat_map(move |mask| {
+                [false, true].into_iter().flat_map(move |equal_leaves| {
+                    [0u8, 3].into_iter().flat_map(move |order| {
+                        BATCH_KINDS.iter().filter_map(move |kind| {
+                            let c = ExCase { hasher, depth, mask, order, equal_leaves, kind: kind.to_string() };
+                            order_is_new(&c).then_some(c)
+                        })
+                    })
+                })
+            })
+        })
+    });
+    run.enumerate(
+        "exhaustive-mutations-d1-3",
+        "all six hashers x depth 1..3 x every non-empty position subset x {sorted, odd ranks first} x {distinct, all-equal} leaves x every mutation kind (each applied at every place it applies: every leaf / node / position and bit / vector): verify_batch must return Err unless every claimed (position, leaf) is committed and the list is non-empty, distinct, in range; verify_batch and into_paths must not panic; into_paths must not return a resolving path for an uncommitted leaf; non-trivial = at least one mutant of the kind exists",
+        true,
+        neg_small,
+        |c: &ExCase, obs: &mut Obs| with_hasher!(c.hasher, ex_negative(c, obs)),
+    );
+    let stride: u32 = if thorough { 1 } else { 29 };
+    let neg_d4 = [0u8, 1, 2].into_iter().flat_map(move |hasher| {
+        masks(4).filter(move |m| stride == 1 || m % stride == (hasher as u32 + 1) || m.count_ones() <= 2 || m.count_ones() >= 15).flat_map(move |mask| {
+            [false, true].into_iter().flat_map(move |equal_leaves| {
+                [0u8, 3].into_iter().flat_map(move |order| {
+                    BATCH_KINDS.iter().filter_map(move |kind| {
+                        let c = ExCase { hasher, depth: 4, mask, order, equal_leaves, kind: kind.to_string() };
+                        // all-equal leaves and the second order on every 4th subset only
+                        let keep = (!equal_leaves && order == 0) || mask % 4 == 1;
+                        (keep && order_is_new(&c)).then_some(c)
+                    })
+                })
+            })
+        })
+    });
+    run.enumerate(
+        "exhaustive-mutations-d4",
+        if thorough {
+            "Blake3_256, Sha3_256, Rp64_256 x depth 4 x every non-empty subset of the 16 positions (sorted order, distinct leaves; additionally odd-ranks-first order and all-equal leaves on every 4th subset) x every mutation kind at every place; same oracle as exhaustive-mutations-d1-3"
+        } else {
+            "Blake3_256, Sha3_256, Rp64_256 x depth 4 x every 29th subset of the 16 positions plus all subsets of size <= 2 and >= 15 (sorted order, distinct leaves; additionally odd-ranks-first order and all-equal leaves on every 4th of those) x every mutation kind at every place; same oracle as exhaustive-mutations-d1-3 (the thorough tier visits every subset)"
+        },
+        thorough,
+        neg_d4,
+        |c: &ExCase, obs: &mut Obs| with_hasher!(c.hasher, ex_negative(c, obs)),
+    );
+
+    // ---- single paths ------------------------------------------------------------------------
+    let path_cases = ex_hashers.clone().into_iter().flat_map(|hasher| {
+        (1u8..=6).flat_map(move |depth| {
+            (0u32..(1 << depth)).flat_map(move |pos| {
+                [false, true].into_iter().flat_map(move |equal_leaves| {
+                    PATH_KINDS.iter().map(move |kind| PathCase { hasher, depth, pos, equal_leaves, kind: kind.to_string() })
+                })
+            })
+        })
+    });
+    run.enumerate(
+        "exhaustive-paths",
+        "all six hashers x depth 1..6 x every position x {distinct, all-equal} leaves x every single-path mutation kind (leaf / every node / every index bit / out-of-range and huge indexes / empty, 1-node, shortened, extended and 65+-node paths) and the documented errors of prove / prove_batch: verify must return Err unless (index, leaf) is a committed pair, never panic; all cases non-trivial",
+        true,
+        path_cases,
+        |c: &PathCase, obs: &mut Obs| with_hasher!(c.hasher, ex_single(c, obs)),
+    );
+
+    // ---- sampled, depth 5..12 ----------------------------------------------------------------
+    let f11_known = run.is_known("exhaustive-openings/from_paths-unsorted/does-not-verify") || run.is_known("sampled-openings/from_paths-unsorted/does-not-verify");
+    run.sub(&SampledPos { skip_unsorted_repack: f11_known });
+    // kinds with a recorded finding are left to the enumerations above (which do not shrink)
+    let kinds: Vec<&'static str> = BATCH_KINDS
+        .iter()
+        .filter(|k| !run.is_known(&format!("sampled-mutations/{k}/")))
+        .cloned()
+        .collect();
+    let path_kinds: Vec<&'static str> = PATH_KINDS
+        .iter()
+        .filter(|k| !run.is_known(&format!("sampled-mutations/{k}/")))
+        .cloned()
+        .collect();
+    let excluded: Vec<String> = BATCH_KINDS
+        .iter()
+        .chain(PATH_KINDS.iter())
+        .filter(|k| !kinds.contains(k) && !path_kinds.contains(k))
+        .map(|s| s.to_string())
+        .collect();
+    run.note("sampled_mutations_kinds_excluded_as_known", serde_json::json!(excluded));
+    run.sub(&SampledNeg { kinds, path_kinds });
+}
